@@ -168,7 +168,8 @@ class MADisjunctiveConditionsRemover(DisjunctiveConditionsRemover):
             if new_goal.is_or():
                 new_name = self.name if timing is None else f"{self.name}_timed"
                 fake_fluent = up.model.Fluent(
-                    get_fresh_name(new_problem, f"{new_name}_fake_goal")
+                    get_fresh_name(new_problem, f"{new_name}_fake_goal"),
+                    environment=env,
                 )
                 fake_action = InstantaneousAction(f"{new_name}_fake_action", _env=env)
                 fake_action.add_effect(fake_fluent, True)
